@@ -222,6 +222,13 @@ func (p *vpIdP) logCall(ep string, params url.Values, outcome string) {
 	p.calls = append(p.calls, vpIdPCall{Seq: p.seq, Endpoint: ep, Params: params, Outcome: outcome})
 }
 
+func (p *vpIdP) codeUnused(code string) bool {
+	p.mu.Lock()
+	defer p.mu.Unlock()
+	c := p.codes[code]
+	return c != nil && !c.Used
+}
+
 func (p *vpIdP) snapshotCalls() []vpIdPCall {
 	p.mu.Lock()
 	defer p.mu.Unlock()
